@@ -136,6 +136,25 @@ CHECKS["C05"] = dict(
          "C06's subject, which is not claimed).",
 )
 
+CHECKS["C06"] = dict(
+    engine="sbvm-t",
+    technique="bounded model checking (z3): the real BaseObserver/EventDispatcher/EventEmitter/BaseThread start, schedule, "
+              "stop, join, run loops and the event queue executed symbolically by the application thread, the dispatcher "
+              "thread and a scripted emitter thread under the step-indexed symbolic scheduler; deadlock (some thread "
+              "unfinished, nobody enabled, no timed waiter) is an obligation at every step",
+    level=("model_checking",
+           "For every interleaving within K steps of the programs 'schedule; start; stop; join' with an idle emitter and with "
+           "an emitter that queues one event (thorough adds a second stop(), stop() from inside a callback, and "
+           "unschedule() from the application thread): no deadlock, stop()+join() returns, afterwards the observer thread "
+           "and every emitter thread have exited. This is a small slice of C06: scripted emitters only, all schedule() "
+           "calls before start(), one watch.", "DESIGN.md section 9, C04/C05/C06"),
+    note="Trusted: threading models (no spurious wake-ups), the scheduling-point reduction, VM semantics (scheduled "
+         "counterexamples are re-executed in the VM with the schedule forced, not on real threads), z3. NOT decided: the "
+         "real inotify/polling emitters, stop() after the watched root disappeared, schedule() on a running observer, "
+         "livelock through timed waits. A seeded lost wake-up in EventDispatcher.stop (seeded/C06-1) was not decided "
+         "within 900 s by the quick tier (exit by timeout, not a pass).",
+)
+
 CHECKS["C08"] = dict(
     engine="sbvm-t+sbvm",
     technique="bounded model checking (z3): the real InotifyBuffer.run/_group_events and DelayedQueue.put/remove executed "
@@ -222,8 +241,8 @@ CHECKS["C01"] = dict(
     technique="SMT (z3) over a symbolic execution of the real inotify pipeline (Inotify.__init__/read_events, "
               "InotifyBuffer.run/_group_events, DelayedQueue, InotifyEmitter.queue_events, generate_sub_*_events) on "
               "symbolic operations over a file-system/kernel model",
-    level=("model_checking", 'For every valid operation (kind and operands symbolic) on the initial tree, with recursive/non-recursive watches, str/bytes roots, normal/full emitters and one-event-per-read or one-read-per-burst batching, replaying the delivered created/deleted/moved events on the initial tree yields the final tree; two-operation histories in the thorough tier.', "DESIGN.md section 9"),
-    note='Trusted: the file-system + inotify kernel model vf/fsmodel.py (inotify(7) contract, not re-validated against the real kernel at run time), sequential threading models, the replay semantics of DESIGN.md 9.0, VM semantics (every counterexample is replayed natively against the real library code over the same model), z3. Quick tier: every single operation from the operand pools on a fixed initial tree; thorough: two-operation histories (settled and back to back under the pacing condition).',
+    level=("model_checking", 'For every valid operation (kind and operands symbolic) on the initial tree, with recursive/non-recursive watches, str/bytes roots, normal/full emitters and one-event-per-read or one-read-per-burst batching, replaying the delivered created/deleted/moved events on the initial tree yields the final tree; histories of two operations only in directed form (first operation fixed).', "DESIGN.md section 9"),
+    note='Trusted: the file-system + inotify kernel model vf/fsmodel.py (inotify(7) contract, not re-validated against the real kernel at run time), sequential threading models, the replay semantics of DESIGN.md 9.0, VM semantics (every counterexample is replayed natively against the real library code over the same model), z3. Quick tier: every single operation from the operand pools on a fixed initial tree; plus directed two-operation histories (first operation fixed - mkdir, or a directory moved out of the tree - second operation symbolic); thorough: more single-operation configurations and more directed histories (directory renamed, directory moved in). Fully symbolic two-operation histories did not finish building and are not claimed.',
 )
 CHECKS["C02"] = dict(
     engine="sbvm",
@@ -231,23 +250,23 @@ CHECKS["C02"] = dict(
               "InotifyBuffer.run/_group_events, DelayedQueue, InotifyEmitter.queue_events, generate_sub_*_events) on "
               "symbolic operations over a file-system/kernel model",
     level=("model_checking", "After every valid operation the library's watch map holds every directory that exists under the root under its current path, and a probe file created in a symbolically chosen existing directory is reported under its real path (non-recursive: deeper probes are never reported).", "DESIGN.md section 9"),
-    note='Trusted: the file-system + inotify kernel model vf/fsmodel.py (inotify(7) contract, not re-validated against the real kernel at run time), sequential threading models, the replay semantics of DESIGN.md 9.0, VM semantics (every counterexample is replayed natively against the real library code over the same model), z3. Quick tier: every single operation from the operand pools on a fixed initial tree; thorough: two-operation histories (settled and back to back under the pacing condition).',
+    note='Trusted: the file-system + inotify kernel model vf/fsmodel.py (inotify(7) contract, not re-validated against the real kernel at run time), sequential threading models, the replay semantics of DESIGN.md 9.0, VM semantics (every counterexample is replayed natively against the real library code over the same model), z3. Quick tier: every single operation from the operand pools on a fixed initial tree; plus directed two-operation histories (first operation fixed - mkdir, or a directory moved out of the tree - second operation symbolic); thorough: more single-operation configurations and more directed histories (directory renamed, directory moved in). Fully symbolic two-operation histories did not finish building and are not claimed.',
 )
 CHECKS["C03"] = dict(
     engine="sbvm",
     technique="SMT (z3) over a symbolic execution of the real inotify pipeline (Inotify.__init__/read_events, "
               "InotifyBuffer.run/_group_events, DelayedQueue, InotifyEmitter.queue_events, generate_sub_*_events) on "
               "symbolic operations over a file-system/kernel model",
-    level=("model_checking", "Every single operation, settled, produces exactly the multiset of events of its contract (written independently from the statement's examples): nothing required missing, nothing outside the contract, for recursive/non-recursive watches and normal/full emitters. Soundness of events over longer histories only in the thorough tier.", "DESIGN.md section 9"),
-    note='Trusted: the file-system + inotify kernel model vf/fsmodel.py (inotify(7) contract, not re-validated against the real kernel at run time), sequential threading models, the replay semantics of DESIGN.md 9.0, VM semantics (every counterexample is replayed natively against the real library code over the same model), z3. Quick tier: every single operation from the operand pools on a fixed initial tree; thorough: two-operation histories (settled and back to back under the pacing condition).',
+    level=("model_checking", "Every single operation, settled, produces exactly the multiset of events of its contract (written independently from the statement's examples): nothing required missing, nothing outside the contract, for recursive/non-recursive watches and normal/full emitters. Histories of two operations only in directed form (first operation fixed); the open finding (phantom events after a directory was moved out) is reported as KNOWN-FINDING.", "DESIGN.md section 9"),
+    note='Trusted: the file-system + inotify kernel model vf/fsmodel.py (inotify(7) contract, not re-validated against the real kernel at run time), sequential threading models, the replay semantics of DESIGN.md 9.0, VM semantics (every counterexample is replayed natively against the real library code over the same model), z3. Quick tier: every single operation from the operand pools on a fixed initial tree; plus directed two-operation histories (first operation fixed - mkdir, or a directory moved out of the tree - second operation symbolic); thorough: more single-operation configurations and more directed histories (directory renamed, directory moved in). Fully symbolic two-operation histories did not finish building and are not claimed.',
 )
 CHECKS["C07"] = dict(
     engine="sbvm",
     technique="SMT (z3) over a symbolic execution of the real inotify pipeline (Inotify.__init__/read_events, "
               "InotifyBuffer.run/_group_events, DelayedQueue, InotifyEmitter.queue_events, generate_sub_*_events) on "
               "symbolic operations over a file-system/kernel model",
-    level=("model_checking", 'For every valid operation, including operations on entries outside the watched tree, no code of the pipeline raises, and a probe made afterwards in an existing directory is still reported; two-operation histories (names re-used, moved-out directories) in the thorough tier. Root deletion and transient lookup failures are not covered.', "DESIGN.md section 9"),
-    note='Trusted: the file-system + inotify kernel model vf/fsmodel.py (inotify(7) contract, not re-validated against the real kernel at run time), sequential threading models, the replay semantics of DESIGN.md 9.0, VM semantics (every counterexample is replayed natively against the real library code over the same model), z3. Quick tier: every single operation from the operand pools on a fixed initial tree; thorough: two-operation histories (settled and back to back under the pacing condition).',
+    level=("model_checking", 'For every valid operation, including operations on entries outside the watched tree, no code of the pipeline raises, and a probe made afterwards in an existing directory is still reported; histories of two operations only in directed form (first operation fixed: a directory moved out; thorough adds a directory renamed or moved in). Root deletion and transient lookup failures are not covered.', "DESIGN.md section 9"),
+    note='Trusted: the file-system + inotify kernel model vf/fsmodel.py (inotify(7) contract, not re-validated against the real kernel at run time), sequential threading models, the replay semantics of DESIGN.md 9.0, VM semantics (every counterexample is replayed natively against the real library code over the same model), z3. Quick tier: every single operation from the operand pools on a fixed initial tree; plus directed two-operation histories (first operation fixed - mkdir, or a directory moved out of the tree - second operation symbolic); thorough: more single-operation configurations and more directed histories (directory renamed, directory moved in). Fully symbolic two-operation histories did not finish building and are not claimed.',
 )
 CHECKS["C19"] = dict(
     engine="sbvm",
@@ -255,16 +274,11 @@ CHECKS["C19"] = dict(
               "InotifyBuffer.run/_group_events, DelayedQueue, InotifyEmitter.queue_events, generate_sub_*_events) on "
               "symbolic operations over a file-system/kernel model",
     level=("model_checking", 'For roots given as str, str with trailing slash and bytes, and file names including an undecodable byte and a multi-byte UTF-8 name, every non-empty path of every delivered event (source, destination, synthetic, parent-directory) has the type of the watched path and names the real entry. Inotify observer only; the polling observer is not covered here.', "DESIGN.md section 9"),
-    note='Trusted: the file-system + inotify kernel model vf/fsmodel.py (inotify(7) contract, not re-validated against the real kernel at run time), sequential threading models, the replay semantics of DESIGN.md 9.0, VM semantics (every counterexample is replayed natively against the real library code over the same model), z3. Quick tier: every single operation from the operand pools on a fixed initial tree; thorough: two-operation histories (settled and back to back under the pacing condition).',
+    note='Trusted: the file-system + inotify kernel model vf/fsmodel.py (inotify(7) contract, not re-validated against the real kernel at run time), sequential threading models, the replay semantics of DESIGN.md 9.0, VM semantics (every counterexample is replayed natively against the real library code over the same model), z3. Quick tier: every single operation from the operand pools on a fixed initial tree; plus directed two-operation histories (first operation fixed - mkdir, or a directory moved out of the tree - second operation symbolic); thorough: more single-operation configurations and more directed histories (directory renamed, directory moved in). Fully symbolic two-operation histories did not finish building and are not claimed.',
 )
 
 NOT_YET = "check not built yet (work in progress; see DESIGN.md section 11 for the order)"
 NA = {
-    "C06": "Attempted (vf/props/c06.py): the symbolic-scheduler unrolling of start/schedule/stop/join over BaseObserver, "
-           "EventEmitter, InotifyBuffer and the delayed queue needs more than 60 scheduler steps for the smallest "
-           "interesting program and its encoding did not finish building within an hour; deadlock freedom of the parts is "
-           "covered where it could be encoded (C12 close/read, C17 delayed queue, C18 debouncer). Liveness of the whole "
-           "observer is outside the reach of the bounded encoding available here.",
     "C20": "The Windows and FSEvents emitters import platform libraries (ctypes.windll / _watchdog_fsevents) that cannot be "
            "loaded on this Linux image, and their decoders work on raw memory through ctypes (cast/addressof/string_at), "
            "which the symbolic VM cannot interpret and CrossHair realises; no symbolic encoding of that code was within "
